@@ -17,17 +17,61 @@ def cap(op, bs, maxbytes, cnt=None, offmode=0, nblk=4, **kw):
     return d
 
 def cap_cfgs():
+    N = {"NO_CRC_CHECK": None}
+    T = {"_tier": "thorough"}
     c = []
-    c.append(cap("WRITE", 16, 16, cnt=1))
-    c.append(cap("WRITE", 16, 64, cnt=4, NO_CRC_CHECK=None))
-    c.append(cap("WRITE", 48, 48, cnt=1, NO_CRC_CHECK=None))
-    c.append(cap("WRITE_BYTE", 16, 60, NO_CRC_CHECK=None))
+    c.append(cap("WRITE", 16, 16, cnt=1, **N))
+    c.append(cap("WRITE", 16, 64, cnt=4, **N))
+    c.append(cap("WRITE", 48, 48, cnt=1, **N))
+    c.append(cap("WRITE", 16, 20, cnt=-20, **N))
+    c.append(cap("WRITE_BYTE", 16, 60, **N))
+    c.append(cap("ZEROOUT", 16, 48, **N))
+    c.append(cap("DISCARD", 16, 48, **N))
+    c.append(cap("WRITE", 16, 64, cnt=4, offmode=1, **N))
+    # the three queries below fail on the unchanged tree (genuine defects, see final report)
+    c.append(cap("WRITE", 16, 16, cnt=1, BEYOND_END=None, **N))
+    c.append(cap("WRITE_BYTE", 16, 20, offmode=1, **N))
+    c.append(cap("WRITE", 16, 16, cnt=1, offmode=2, **N))
+    # thorough
+    c.append(cap("WRITE", 48, 48, cnt=1, offmode=2, **N, **T))
+    c.append(cap("WRITE", 48, 96, cnt=2, nblk=6, **N, **T))
+    c.append(cap("WRITE", 48, 100, cnt=-100, nblk=6, **N, **T))
+    c.append(cap("WRITE", 16, 96, cnt=6, nblk=6, **N, **T))
+    c.append(cap("ZEROOUT", 16, 96, nblk=6, **N, **T))
+    c.append(cap("WRITE", 16, 16, cnt=1, **T))          # with the crc-chain check
+    return c
+
+def reopen_cfgs():
+    c = []
+    def uw(nk):
+        return ["try_reopen_undo_file.0:%d" % (nk + 1), "try_reopen_undo_file.1:3", "undo_setup_tdb.0:4"]
+    for nk in (0, 2):
+        c.append({"NK": nk, "FSBS": 1024, "_unwindset": uw(nk)})
+    c.append({"NK": 3, "FSBS": 4096, "_unwindset": uw(3)})
+    for dmg in (1, 2, 3, 4, 5, 6):
+        c.append({"NK": 1, "FSBS": 1024, "DAMAGE": dmg, "_unwindset": uw(1)})
+    # fails on the unchanged tree (genuine defect: block map rebuilt fs-relative, used absolute)
+    c.append({"NK": 2, "FSBS": 1024, "WITH_OFFSET": None, "_unwindset": uw(2)})
     return c
 
 HARNESSES = [
     dict(name="capture", src="capture.c",
-         funcs=["undo_write_blk64", "undo_write_tdb", "write_undo_indexes"],
+         funcs=["undo_write_blk64", "undo_write_tdb", "write_undo_indexes", "undo_io_read_error",
+                "io_channel_read_blk64", "io_channel_write_blk64"],
          configs=cap_cfgs(), backends=["default", "kissat"],
-         bound="x"),
+         bound="undo block 48 bytes (2 keys per key block), channel block 16 or 48 bytes, device of 4 (thorough: 6) undo blocks "
+               "with any byte length, block map / current key block (0-1 keys of 1-2 blocks) / cursor symbolic under Inv; one "
+               "operation of 16..100 bytes (size class concrete per query, position symbolic); offset 0, multiple of the undo "
+               "block, or arbitrary < 2^40"),
+    dict(name="index", src="index.c",
+         funcs=["write_undo_indexes"],
+         configs=[{"FLUSH": 0}, {"FLUSH": 1}], backends=["default", "kissat"],
+         bound="undo block 48 bytes, all 48 key block bytes, 96 superblock bytes, all header-relevant private fields, offset, "
+               "channel block size symbolic"),
+    dict(name="reopen", src="reopen.c",
+         funcs=["try_reopen_undo_file", "check_filesystem", "undo_setup_tdb"],
+         configs=reopen_cfgs(), backends=["default", "kissat"],
+         bound="real undo block size 1024, 0..3 keys of 1..2 undo blocks in one key block, fs block size 1024/4096, "
+               "one flipped bit at a symbolic position per damage class"),
 ]
 MANIFEST = {"text": "x", "note": "x"}
